@@ -682,3 +682,53 @@ def uncompressed_bech32(ctx):
         else:
             ctx.require(bool(rets) and final and all(f == 'base58' for f in final), q, 'Key.address(compressed=False, encoding=%r) with %s remembered: %s' % (enc, remembered, 'refused' if not rets else final), fn)
     ctx.floor(n, 6, 'encoding scenarios')
+
+
+NEGATING = {'Key.inverse', 'HDKey.inverse', 'Key.__neg__', 'HDKey.__neg__'}
+
+
+@PROP.obligation('C04.parity-prefix', canaries=[
+    mut.replace_expr('keys', 'Key.__init__', "'03' if self._y % 2 else '02'", "'02' if self._y % 2 else '03'", 'compressed prefix of an imported uncompressed key negated', nth=1),
+    mut.replace_expr('keys', 'Key.__init__', "'03' if self._y % 2 else '02'", "'02' if self._y % 2 else '03'", 'compressed prefix of a point tuple negated', nth=0),
+])
+def parity_prefix(ctx):
+    """SEC1: the compressed form of (x, y) is 03 || x for odd y and 02 || x for even y. Every expression of keys.py that chooses between
+    the two prefixes by a parity test is evaluated for an odd and an even value: odd selects 03 - except in the methods that NEGATE the
+    point (inverse), where the choice is the opposite by design. The compressed and the uncompressed form then describe the same point."""
+    m = ctx.repo.mod('keys')
+    n = 0
+    for qn, fn in sorted(m.functions.items()):
+        for e in ast.walk(fn):
+            if not isinstance(e, ast.IfExp):
+                continue
+            vals = []
+            for br in (e.body, e.orelse):
+                v = br.value if isinstance(br, ast.Constant) else None
+                vals.append({'02': 2, '03': 3, b'\x02': 2, b'\x03': 3, 2: 2, 3: 3}.get(v) if isinstance(v, (str, bytes, int)) and not isinstance(v, bool) else None)
+            if sorted(x for x in vals if x) != [2, 3]:
+                continue
+            # the single value the test reads
+            atoms = [x for x in ast.walk(e.test) if isinstance(x, (ast.Name, ast.Attribute)) and not any(x is y.value for y in ast.walk(e.test) if isinstance(y, ast.Attribute))]
+            atoms = [x for x in atoms if not (isinstance(x, ast.Name) and x.id == 'self')]
+            names = sorted(set(norm(a) for a in atoms))
+            if len(names) != 1:
+                ctx.unsure('%s: prefix selection `%s` reads %s' % (qn, norm(e)[:60], names))
+                continue
+            res = {}
+            for y in (1, 2, 7, 0):
+                src = norm(e).replace(names[0], '(%d)' % y)
+                try:
+                    got = eval(compile(ast.Expression(ast.parse(src, mode='eval').body), '<parity>', 'eval'), {'__builtins__': {}}, {})
+                except Exception:
+                    got = None
+                res[y] = {'02': 2, '03': 3, b'\x02': 2, b'\x03': 3, 2: 2, 3: 3}.get(got)
+            n += 1
+            odd_is_3 = res.get(1) == 3 and res.get(7) == 3 and res.get(2) == 2 and res.get(0) == 2
+            odd_is_2 = res.get(1) == 2 and res.get(7) == 2 and res.get(2) == 3 and res.get(0) == 3
+            ctx.saw('%s: `%s` -> odd %s, even %s' % (qn, norm(e)[:50], res.get(1), res.get(2)))
+            if qn in NEGATING:
+                ctx.require(odd_is_2, 'keys:' + qn, 'the negated point is encoded with `%s`: odd y must give 02 here (the negation has even y)' % norm(e)[:60], e)
+            else:
+                ctx.require(odd_is_3, 'keys:' + qn, 'the compressed prefix is chosen by `%s`: odd y gives %s, even y gives %s (SEC1: odd 03, even 02)' % (norm(e)[:60], res.get(1), res.get(2)), e,
+                            'a public key imported in uncompressed form exports the compressed form of the NEGATED point: another address, and an xpub that carries the wrong key')
+    ctx.floor(n, 4, 'parity selections')
